@@ -40,6 +40,8 @@ type c10Case struct {
 	Val     []byte `json:"val,omitempty"`  // bytes written at Off (set/burst/fill/xor: the resulting bytes)
 	Del     int    `json:"del,omitempty"`  // splice: number of bytes replaced by Val
 	Note    string `json:"note,omitempty"` // e.g. "footer-count=max"
+	// TimeoutMs overrides the batch's per-case limit (calibrated second attempt after a timeout)
+	TimeoutMs int `json:"timeout_ms,omitempty"`
 	// Focus: addresses named by the damaged record / index entry (large fixtures probe these plus a fixed sample)
 	Focus []string `json:"focus,omitempty"`
 	// journal-file cases: what the recovery rules allow (computed by the parent from the record layout)
@@ -203,7 +205,12 @@ func c10BatchMain(args []string) int {
 		var res c10Result
 		select {
 		case res = <-done:
-		case <-time.After(timeout):
+		case <-time.After(func() time.Duration {
+			if cs.TimeoutMs > 0 {
+				return time.Duration(cs.TimeoutMs) * time.Millisecond
+			}
+			return timeout
+		}()):
 			emit(c10Result{T: "timeout", ID: cs.ID})
 			rf.Close()
 			return c10ExitTimeout
